@@ -71,7 +71,73 @@ def lay_prop(pid, extra_lib=(), preds=False, cex=True):
     return d
 
 
+def c20_extra(tier, seed, cov, notes, ctx):
+    """rustc is the judge: build the generated probe crate against the working tree."""
+    import re, json, os, sys
+    sys.path.insert(0, os.path.join(ctx.ROOT, 'tools'))
+    import gen_probe
+    probe = os.path.join(ctx.BUILD, 'probe')
+    gj = os.path.join(ctx.COQ, 'Gen', 'gen.json')
+    try:
+        n = gen_probe.main(gj, probe)
+    except Exception as e:  # noqa
+        path = ctx.write_replay('C20', 'unproved', {'property': 'C20', 'kind': 'no-failing-input-found', 'broken': ['probe generation'], 'output': {'gen_probe': repr(e)}})
+        return [(path, ' no-failing-input-found')]
+    rc, out, dt = ctx.sh('cargo check --offline --message-format short 2>&1', cwd=probe, timeout=900)
+    if tier == 'thorough' and rc == 0:
+        rc, out2, dt = ctx.sh('cargo build --offline --release 2>&1', cwd=probe, timeout=900)
+        out += out2
+    idx = json.load(open(os.path.join(probe, 'index.json')))['lines']
+    cov['programs'] = n
+    cov['probe_items'] = n
+    cov['explanation'] = ("rustc %s the generated #![no_std] probe crate: %d const/static/Send+Sync items over 10 layouts + 10 AnyLayout variants x 2 scancode sets; "
+                          "the Coq theorems C20_const_fns / C20_auto_traits are about the declaration model Gen/Sigs.v and must agree" % ('accepted' if rc == 0 else 'REJECTED', n))
+    cov['samples'] = [idx[k] for k in list(idx)[:6]]
+    if rc == 0:
+        return []
+    viol = []
+    seen = set()
+    for m in re.finditer(r'src/lib\.rs:(\d+):\d+: error(?:\[(E\d+)\])?: ([^\n]*)', out):
+        line, code, msg = m.group(1), m.group(2), m.group(3)
+        item = idx.get(line, 'line ' + line)
+        key = item.split('<')[0]
+        if key in seen:
+            continue
+        seen.add(key)
+        rep = {'property': 'C20', 'kind': 'probe', 'input_text': item, 'rustc_error': '%s %s' % (code or '', msg), 'probe_line': int(line),
+               'probe': os.path.join(probe, 'src', 'lib.rs')}
+        viol.append((ctx.write_replay('C20', 'cex', rep), ''))
+        if len(viol) >= 5:
+            break
+    if not viol:
+        path = ctx.write_replay('C20', 'unproved', {'property': 'C20', 'kind': 'no-failing-input-found', 'broken': ['probe crate does not build'], 'output': {'cargo': out[-2000:]}})
+        return [(path, ' no-failing-input-found')]
+    return viol
+
+
 PROPS = {
+    'C20': {
+        'level': 'other',
+        'lib': ['Check/C20'],
+        'syn': ['Props/C20'], 'needs_syn': ['Gen/Sigs', 'Check/C20'],
+        'ext': [], 'corr': [],
+        'extra': c20_extra, 'extra_always': True, 'judge_extra': True,
+        'replay_kind': 'probe',
+        'trusted_base': ['rustc const checker and trait solver (the deciding judge for this property)'],
+    },
+    'C08': {
+        'lib': LIB + ['Check/Scan', 'Check/Ps2M', 'Check/Lay', 'Check/Ev', 'Check/C06', 'Check/C07', 'Check/C08'],
+        'syn': ['Props/C08'], 'needs_syn': ['Syn/Lay', 'Syn/Ps2', 'Syn/Set1', 'Syn/Set2', 'Syn/Ev', 'Check/C08'],
+        'ext': ['Props/C08_ext'], 'needs_ext': ['ExtI/Lay', 'ExtI/Ps2', 'ExtI/Scan', 'ExtI/Ev', 'Check/C08'],
+        'corr': ['Corr/Lay', 'Corr/Ps2Words', 'Corr/Ps2Bits', 'Corr/Set1', 'Corr/Set2', 'Corr/Ev'], 'needs_corr': [],
+        'cex_ext': [('Cex/C08_ext', 'layout'), ('Cex/C08w_ext', 'word'), ('Cex/C07_set1_ext', 'bytesN'), ('Cex/C07_set2_ext', 'bytesN'),
+                    ('Cex/C06_ext', 'bits'), ('Cex/C14_ext', 'evstep')],
+        'cex_syn': [('Cex/C08_syn', 'layout'), ('Cex/C08w_syn', 'word'), ('Cex/C07_set1_syn', 'bytesN'), ('Cex/C07_set2_syn', 'bytesN'),
+                    ('Cex/C06_syn', 'bits'), ('Cex/C14_syn', 'evstep')],
+        'replay_kind': 'layout',
+        'cex_filter': 'panic',
+        'assumptions': ['stack use and code generation are outside any source-level model'],
+    },
     'C17': lay_prop('C17'),
     'C16': lay_prop('C16'),
     'C15': lay_prop('C15', ['Check/C16']),
